@@ -105,8 +105,16 @@ theorem get_only_when_undecided :
 
 /-- `Close` closes the gzip writer (which flushes it to the response) and only THEN puts it back, once, and what
 it puts back is the field the `Get` went into: a writer in the pool is never still being written by the response
-that returned it. -/
+that returned it. After the `Put` the field is cleared, under the same guard that all of `Close` runs under ("the
+field is set"): `Close` is exported, and a second call — by the wrapped handler, or by whoever uses
+`NewGzipResponseWriter` directly with a `defer` and an explicit call — must not `Put` the writer a second time
+(`served_trace` says one `Put` per response; before the repair b9247b5 a second `Close` put it in twice and two
+responses in flight shared it). -/
 theorem close_then_put :
+    (before closeEvs
+       (fun e => e.kind == "call" && e.recv == "V[sync.Pool]" && e.name == "Put" && e.args == ["recv.F[*gzip.Writer]"])
+       (fun e => e.kind == "store" && e.recv == "recv.F[*gzip.Writer]" && e.args == ["nil"]) &&
+     (closeEvs.filter (fun e => e.kind == "store")).all (fun e => e.recv == "recv.F[*gzip.Writer]" && e.args == ["nil"])) = true ∧
     (before closeEvs
        (fun e => e.kind == "call" && e.recv == "recv.F[*gzip.Writer]" && e.name == "Close")
        (fun e => e.kind == "call" && e.recv == "V[sync.Pool]" && e.name == "Put" && e.args == ["recv.F[*gzip.Writer]"]) &&
@@ -135,6 +143,6 @@ theorem main_wires_config_and_transport :
     mainProxyTransport = ["transport.NewTransport(nil)"] := by decide
 
 /-- nothing above is vacuous: the events exist -/
-example : deferred.length = 1 ∧ (writeHeaderEvs.filter isGet).length = 1 ∧ closeEvs.length = 2 := by decide
+example : deferred.length = 1 ∧ (writeHeaderEvs.filter isGet).length = 1 ∧ closeEvs.length = 3 := by decide
 
 end Fabio.Props.C17Facts
